@@ -453,8 +453,10 @@ PROPS["C02"] = {
                 "motion by char/word/line/buffer, kills, yanks, transpositions, case changes, undo, C-l, history recall of multi-line "
                 "entries, numeric arguments, hint completion) and the vi key scripts of target ed (minus incremental search); initial "
                 "text; scripted hinter (short, wide and wrapping hints), bracket highlighter, circular completion; one key at a time and "
-                "type-ahead. The bytes written to the terminal are cut at every Event::Any callback and fed to the Lean VT100 emulator. "
-                "Oracle (on the implementation): at every callback the screen is exactly prompt+line+hint rendered from scratch, the "
+                "type-ahead; incremental searches in emacs mode (C-r / C-s, non-empty history, typed characters, direction changes, Backspace, "
+                "every kind of exit incl. commands that repaint nothing, abort, end of input). The bytes written to the terminal are cut at every Event::Any callback and fed to the Lean VT100 emulator. "
+                "Oracle (on the implementation): at every callback the screen is exactly prompt+line+hint rendered from scratch (inside an "
+                "incremental search: the search prompt, computed from the callbacks' keys and the declarative search of C09), the "
                 "cursor is on the insertion-point cell, no wrap is pending; on return the text (without hint) is shown and the cursor is "
                 "at column 0 below it. Correspondence: the editor model's render log replayed through the model renderer gives the same "
                 "callback states, screens, cursors and outcome (screens are compared, not escape-sequence spelling). "
@@ -468,10 +470,10 @@ PROPS["C02"] = {
             "the pty harness cuts the output where the Event::Any handler runs (marker written from inside the handler)",
             "validators' messages, list completion, incremental-search prompts, the external printer, tabs and control characters in the "
             "text are outside this check (not in the property's quantifier, or other properties)"],
-        "unproved": ["C02_execute_pres_statement: every command of execute (and listing completion) keeps prompt, line and cursor shown - "
-                     "reduced to ~25 edit-function obligations (editKill, grouped, editYank, history recall, undo, indent, accept ...), "
-                     "each needing 'a line-buffer operation that reports no change changed nothing'; lifted so far: editInsert, "
-                     "editMove over a faithful motion, refreshLine, moveCursor, the key maps, circular completion, the loops"],
+        "unproved": ["C02_lbFaithful_statement: the line-buffer operations are faithful (LBFaithful: a motion leaves the text alone and answers false only "
+                     "if the cursor did not move; an edit / paste / undo that answers 'nothing changed' changed neither text nor cursor) - "
+                     "statements about Rl/LineBuffer.lean and Rl/Undo.lean alone; everything above them (every command of execute, completion, "
+                     "incremental search, key maps, loops) is proved"],
         "level_text": "Lean theorems, for every lawful segmenter, width table and terminal width >= 2, over prompts/lines/hints made of "
                       "line breaks and printable clusters of width 0/1/2: the grapheme loop of calculate_position simulates the cursor "
                       "of a VT100-style terminal (deferred wrap, early wrap of wide characters, zero-width joins); positions computed "
@@ -497,9 +499,10 @@ PROPS["C02"] = {
                       "prompts included), circular completion, the dispatch loop and the main loop; every C02_StepOK clause is discharged "
                       "at its logging site and no replay step panics. C02_editor_log_coherent / C02_editor_shows conclude, for logs whose "
                       "texts are of the quantified kind and cursors on char boundaries (LogFine), that the model's log is coherent and that "
-                      "at every callback the emulated terminal shows prompt+line+cursor - GIVEN C02_EditorParts: each command of execute "
-                      "and listing completion keep the invariant (C02_execute_pres_statement, not proved yet; three sample commands are) "
-                      "and incremental search does (false in general: finding D42, true without stored history). "
+                      "at every callback the emulated terminal shows the prompt on display (the own one, or inside an incremental search the "
+                      "search prompt) + line + cursor - GIVEN LBFaithful (C02_lbFaithful_statement, not proved: line-buffer operations that "
+                      "report no change changed nothing). Every command of execute (pres_execute), listing and circular completion and - since "
+                      "the repair of D42 - incremental search (est_searchLoop) are lifted. "
                       "The differential check covers the real Editor::readline "
                       "on a pty at widths 2..40 and 80, its output interpreted by the Lean terminal emulator at every Event::Any "
                       "callback and compared with the from-scratch rendering (oracle) and with the model renderer's screen.",
